@@ -494,4 +494,48 @@ Qed.
 (** ** layer numbers *)
 
 
+(** ** the layering is unique: it does not depend on the iteration order *)
+
+Lemma layered_sub : forall ls1 ls2, layered ls1 -> layered ls2 ->
+  forall i v, In v (nth i ls1 []) -> In v (nth i ls2 []).
+Proof.
+  intros ls1 ls2 L1 L2 i. induction i as [i IH] using lt_wf_ind. intros v Hv.
+  assert (Hv2 : In v (concat ls2)).
+  { apply (l_ready _ L2). split.
+    - apply (l_ready _ L1). eapply nth_in_concat; eauto.
+    - intros u E. destruct (l_before _ L1 i v u Hv E) as [j [Hj Hu]].
+      eapply nth_in_concat. apply (IH j Hj u Hu). }
+  apply in_concat_nth in Hv2. destruct Hv2 as [k [_ Hk]].
+  assert (Hge : i <= k).
+  { destruct i as [|i']; [lia|].
+    destruct (l_tight _ L1 i' v Hv) as [u [E Hu]].
+    apply (IH i' (Nat.lt_succ_diag_r i')) in Hu.
+    destruct (l_before _ L2 k v u Hk E) as [j [Hj Hu']].
+    assert (i' = j) by (eapply nodup_concat_unique; [apply (l_nodup _ L2) | eassumption | eassumption]). lia. }
+  assert (Hle : k <= i).
+  { destruct k as [|k']; [lia|].
+    destruct (l_tight _ L2 k' v Hk) as [u [E Hu]].
+    destruct (l_before _ L1 i v u Hv E) as [j [Hj Hu']].
+    apply (IH j Hj) in Hu'.
+    assert (k' = j) by (eapply nodup_concat_unique; [apply (l_nodup _ L2) | eassumption | eassumption]). lia. }
+  assert (k = i) by lia. subst. assumption.
+Qed.
+
+Lemma layered_unique : forall ls1 ls2, layered ls1 -> layered ls2 ->
+  length ls1 = length ls2 /\ forall i v, In v (nth i ls1 []) <-> In v (nth i ls2 []).
+Proof.
+  intros ls1 ls2 L1 L2.
+  assert (Len : forall la lb, layered la -> layered lb -> length la <= length lb).
+  { intros la lb La Lb. destruct (Nat.le_gt_cases (length la) (length lb)) as [|Hgt]; [assumption|].
+    exfalso.
+    assert (Hin : In (nth (length lb) la []) la) by (apply nth_In; assumption).
+    pose proof (l_nonempty _ La _ Hin) as Hne.
+    destruct (nth (length lb) la []) as [|x r] eqn:E; [congruence|].
+    assert (Hx : In x (nth (length lb) la [])) by (rewrite E; left; reflexivity).
+    apply (layered_sub la lb La Lb) in Hx. rewrite nth_overflow in Hx by lia. contradiction. }
+  split.
+  - apply Nat.le_antisymm; apply Len; assumption.
+  - intros i v. split; apply layered_sub; assumption.
+Qed.
+
 End Kahn.
